@@ -53,9 +53,11 @@ avars == <<pc, next, st, wg, cell, inv, once, sched, owg>>
 
 Rows  == 1..NRows
 Its   == DOMAIN Items
-IsOnce(k) == k \in {"once", "oncenull"}
+\* ("oncearg": a ONCE call whose argument expression has a value on the first row only - the arguments of a ONCE call
+\* are read for its one invocation, not for the rows that merely see the remembered value)
+IsOnce(k) == k \in {"once", "oncenull", "oncearg"}
 NullVal == -4
-Calls == {<<r, i>> : r \in Rows, i \in {j \in Its : Items[j] \in {"sync", "fail", "async", "spinasync", "spin", "once", "oncenull"}}}
+Calls == {<<r, i>> : r \in Rows, i \in {j \in Its : Items[j] \in {"sync", "fail", "async", "spinasync", "spin", "once", "oncenull", "oncearg"}}}
 Kind(c) == Items[c[2]]
 Val(r) == r * 10
 Bg(c)  == Kind(c) \in {"async", "spinasync", "spin"}          \* runs in a goroutine
